@@ -27,7 +27,8 @@ struct out_msg {            // broker -> client QoS 1/2 exchange kept for retran
 
 struct broker {
     struct bconn { int id; int host; std::string inbuf; bool connected = false; bool closed = false; int auth_left = 0; std::string auth_method;
-                   bool poisoned = false; /* hostile bytes left the stream mid-packet / malformed: the broker says nothing more on it */ };
+                   bool poisoned = false; /* hostile bytes left the stream mid-packet / malformed: the broker says nothing more on it */
+                   size_t client_maxpkt = 65536; /* Maximum Packet Size of the client's CONNECT; the library's own limit when it announced none */ };
     std::map<int, bconn> conns;
     std::deque<connack_cfg> connack_queue;
     connack_cfg connack_default;
@@ -131,6 +132,8 @@ struct broker {
             log_recv(bc, pk, ref::connect_digest(pk), "");
             bc.auth_left = 0; bc.auth_method.clear();
             for (auto& p : pk.props) if (p.id == 0x15) { bc.auth_method = p.s1; bc.auth_left = auth_rounds; }
+            bc.client_maxpkt = 65536;
+            for (auto& p : pk.props) if (p.id == 0x27) bc.client_maxpkt = p.num;
             if (bc.auth_left > 0) { --bc.auth_left; send_auth(bc); }
             else add_obl(bc.id, ref::CONNACK, 0, 0, 0, {});
             break; }
@@ -315,6 +318,7 @@ struct broker {
         while (off < bytes.size()) {
             ref::packet pk; size_t n = ref::decode_packet((const unsigned char*) bytes.data() + off, bytes.size() - off, pk);
             if (n == 0 || !pk.ok || !server_may_send(pk, it->second.connected)) break;
+            if (n > it->second.client_maxpkt) break;        // larger than the client accepts: not a packet a server may send
             int ans = 0;
             for (size_t i = 0; i < obl.size(); ++i)
                 if (obl[i].conn == c && obl[i].kind == pk.type && obl[i].pid == (pk.pid < 0 ? 0 : pk.pid)) { ans = obl[i].k; obl.erase(obl.begin() + i); break; }
